@@ -376,6 +376,52 @@ __CPROVER_ensures(g_func_dtors == 1 && g.stores == 1 && g.store_state == RS_Erro
 void harness(void) { ghost_reset(); g_func_dtors = 0; Core* a; Drop(a); VF_CANARY("end"); }
 '''
     job('PromiseCore.Drop', b, src, 'Drop', ['FUNCTOR_DTOR', 'Store', 'SetResult', 'Loop'])
+    # PromiseCore as the head of a lazy chain: Here / Next start it (like detail::Start) until Call ran, afterwards they forward a connected future's Result
+    b_h = find_body(repo, F_PC, r'InlineCore\s*\*\s*Here\s*\(\s*InlineCore\s*&\s*caller\s*\)\s*noexcept\s+final', 'PromiseCore::Here')
+    b_n = find_body(repo, F_PC, r'coroutine_handle<>\s+Next\s*\(\s*InlineCore\s*&\s*caller\s*\)\s*noexcept\s+final', 'PromiseCore::Next')
+    b_c = find_body(repo, F_PC, r'void\s+Call\s*\(\s*\)\s*noexcept\s+final', 'PromiseCore::Call')
+    hp = [(r'this->_executor->Submit\(\s*\*this\s*\)', 'Submit(self->_executor, self)', 1), (r'Base::(Here|Next)\(caller\)', r'BASE_HERE(self, caller)', 1), (r'Noop<true>\(\)', '((Transfer)0)', 0)]
+    stubs_h = '''Transfer g_base_ret;
+void Submit(void* e, Core* job) __CPROVER_requires(e != 0 && g.submits == 0) __CPROVER_assigns(g.submits, g.submit_to, g.submit_job) __CPROVER_ensures(g.submits == 1 && g.submit_to == e && g.submit_job == job);
+Transfer BASE_HERE(Core* self, Core* caller) __CPROVER_requires(g.heres == 0) __CPROVER_assigns(g.heres, g.here_on, g.here_caller) __CPROVER_ensures(g.heres == 1 && g.here_on == self && g.here_caller == caller && RET == g_base_ret);
+'''
+    for nm, b in (('Here', b_h), ('Next', b_n)):
+        c = Rewriter('PromiseCore::' + nm, pre=hp, refs=['caller']).rewrite(b.text)
+        src = COMMON.replace('void* _executor; Res _result; };', 'void* _executor; Res _result; struct { Core* caller; unsigned char unwrapping; } _self; };') + stubs_h + '''Transfer HereF(Core* self, Core* caller)
+__CPROVER_requires(__CPROVER_is_fresh(self, sizeof(*self)) && self->_executor != 0 && self->_self.unwrapping <= 1 && g.submits == 0 && g.heres == 0)
+__CPROVER_assigns(g.submits, g.submit_to, g.submit_job, g.heres, g.here_on, g.here_caller)
+/* C12 / C02 / C13: a LazyContract head that has not run yet is STARTED when it is reached through Here / Next (its caller is its continuation - a step that returned this Task, or a coroutine
+   awaiting it): exactly one Submit of itself on its own executor, as detail::Start does, and nothing is read from the caller */
+__CPROVER_ensures(OLD(self->_self.unwrapping) == 0 ==> (g.submits == 1 && g.submit_job == self && g.submit_to == self->_executor && g.heres == 0 && RET == (Transfer)0))
+/* once Call ran, the only way to be reached is as the callback of a connected future: forward its Result (UniqueCore / SharedCore Here) */
+__CPROVER_ensures(OLD(self->_self.unwrapping) != 0 ==> (g.submits == 0 && g.heres == 1 && g.here_on == self && g.here_caller == caller && RET == g_base_ret))
+{''' + c + '''}
+void harness(void) { ghost_reset(); Core* a; Core* b; HereF(a, b); if (g.submits) VF_CANARY("started"); else VF_CANARY("forwarded"); }
+'''
+        job('PromiseCore.' + nm, b, src, 'HereF', ['Submit', 'BASE_HERE'], canaries=2)
+    cp = [(r'PromiseT\s+promise\s*\{\s*CorePtrT\s*\{\s*NoRefTag\{\}\s*,\s*this\s*\}\s*\}\s*;', 'Core* promise = self;', 1), (r'\btry\s*\{', '{', 1), (r'static_assert\([^;]*\);', '', 0),
+          (r'auto\s+func\s*=\s*std::move\(\s*this->_func\.storage\s*\)\s*;', 'FUNC_MOVE(self);', 1), (r'this->_func\.storage\.~Storage\(\)', 'FUNCTOR_DTOR(self)', 1),
+          (r'std::forward<Invoke>\(func\)\(\s*std::move\(promise\)\s*\)', 'FUNC_INVOKE(self)', 1), (r'\}\s*catch\s*\(\s*\.\.\.\s*\)\s*\{', '} if (g_threw) {', 1),
+          (r'promise\.Valid\(\)', 'PROMISE_VALID(promise)', 1), (r'std::move\(promise\)\.Set\(\s*std::current_exception\(\)\s*\)', 'PROMISE_SET_EXC(promise)', 1)]
+    c = Rewriter('PromiseCore::Call', pre=cp).rewrite(b_c.text)
+    src = COMMON.replace('void* _executor; Res _result; };', 'void* _executor; Res _result; struct { Core* caller; unsigned char unwrapping; } _self; };') + '''unsigned g_func_moves, g_func_dtors, g_invokes, g_set_excs; unsigned char g_threw, g_valid;
+void FUNC_MOVE(Core* s) __CPROVER_requires(g_func_moves == 0 && g_func_dtors == 0) __CPROVER_assigns(g_func_moves) __CPROVER_ensures(g_func_moves == 1);
+void FUNCTOR_DTOR(Core* s) __CPROVER_requires(g_func_dtors == 0 && g_func_moves == 1) __CPROVER_assigns(g_func_dtors) __CPROVER_ensures(g_func_dtors == 1);
+/* the user functor receives the Promise: from here on the promise may be connected to another future, so the core must already be marked as started, and the storage it was moved from must be gone
+   (the promise may be fulfilled - and the core freed - before the functor returns) */
+void FUNC_INVOKE(Core* s) __CPROVER_requires(g_invokes == 0 && g_func_moves == 1 && g_func_dtors == 1 && s->_self.unwrapping == 1) __CPROVER_assigns(g_invokes, g_threw, g_valid)
+  __CPROVER_ensures(g_invokes == 1 && g_threw <= 1 && g_valid <= 1);
+int PROMISE_VALID(Core* p) __CPROVER_assigns() __CPROVER_ensures(RET == g_valid);
+void PROMISE_SET_EXC(Core* p) __CPROVER_requires(g_valid && g_threw && g_set_excs == 0) __CPROVER_assigns(g_set_excs) __CPROVER_ensures(g_set_excs == 1);
+void CallF(Core* self)
+__CPROVER_requires(__CPROVER_is_fresh(self, sizeof(*self)) && self->_self.unwrapping == 0 && g_func_moves == 0 && g_func_dtors == 0 && g_invokes == 0 && g_set_excs == 0)
+__CPROVER_assigns(self->_self.unwrapping, g_func_moves, g_func_dtors, g_invokes, g_threw, g_valid, g_set_excs)
+/* Contract step: the functor is moved out, its storage destroyed and it is invoked exactly once with the promise; an exception it throws becomes the Result iff the promise was not consumed (C02 / C03) */
+__CPROVER_ensures(self->_self.unwrapping == 1 && g_func_moves == 1 && g_func_dtors == 1 && g_invokes == 1 && g_set_excs == ((g_threw && g_valid) ? 1 : 0))
+{ g_threw = 0; ''' + c + '''}
+void harness(void) { ghost_reset(); g_func_moves = g_func_dtors = g_invokes = g_set_excs = 0; Core* a; CallF(a); if (g_set_excs) VF_CANARY("exception stored"); else VF_CANARY("normal"); }
+'''
+    job('PromiseCore.Call', b_c, src, 'CallF', ['FUNC_MOVE', 'FUNCTOR_DTOR', 'FUNC_INVOKE', 'PROMISE_VALID', 'PROMISE_SET_EXC'], canaries=2)
     within = r'class\s+ReadyCore\s*:'
     b_call = find_body(repo, F_MAKE, r'void\s+Call\s*\(\s*\)\s*noexcept\s+final', 'ReadyCore::Call', within=within)
     b_drop = find_body(repo, F_MAKE, r'void\s+Drop\s*\(\s*\)\s*noexcept\s+final', 'ReadyCore::Drop', within=within)
